@@ -14,19 +14,42 @@ CHECK = dict(
     technique="explicit-state model checking of the implementation: breadth-first search over the reachable global states of 3-7 real qbft.Run "
               "instances driven event by event (deliveries, timeouts, inputs) under a message-constructing Byzantine adversary; state keys are "
               "canonical dumps of Run's private state; plus, at the level of the consensus component, exhaustive enumeration of life-cycle scripts executed on four real "
-              "Consensus components in virtual time",
+              "Consensus components in virtual time - single-duty scripts and two-duty scripts in which two instances overlap on the same long-lived components and "
+              "a Byzantine member moves material between the instances",
     claim="all global states reachable within the stated menu/bounds (rounds <= R, values, quorum-directed delivery sets, bounded noise) of n real "
           "qbft.Run instances; agreement checked in every state. Component part (TestVerifC02L, core/consensus/qbft): the complete product, over the three honest "
           "members and every position (or absence) of a Byzantine yes-voter (answers every PRE-PREPARE with PREPARE+COMMIT, every ROUND-CHANGE with a null "
           "ROUND-CHANGE), of the life cycles {Participate and Propose at 0; Propose 1.2 s after Participate, i.e. after round 1; both at 1.2 s and everything "
           "sent earlier lost; Participate only} (quick, 512 scripts; thorough 10 life cycles incl. Propose only, 0.3 s, 2.4 s) on real NewConsensus components "
           "(real gater, deadliner, eager-double-linear timers, transport, stream handler; stub libp2p host of the C05 harness); oracle: no honest component "
-          "hands more than one decision per duty to its subscribers and all honest decisions are equal",
+          "hands more than one decision per duty to its subscribers and all honest decisions are equal. Multi-duty dimension of the component part: two duties "
+          "X=attester/slot 1001 and Y on the same four components, pairs {Y=attester/1002; Y=aggregator/1001 (same slot, other type); Y=aggregator/1002 (other slot and "
+          "type, same leader rotation as X)}, every member proposes a different value for X and for Y (properly typed sets), orders {X decided before Y starts (Y at 2.4 s); "
+          "both at 0; Y at 0 and X at 0.3 s}, Y's late-start shape = the instant the adversary acts relative to Y {pre: the victim starts Y at 3.0 s, after the action at "
+          "2.7 s; run: Y's round-1 leader proposes at 3.0 s, Y runs undecided; post: Y decided}, shape of X {decided in round 1; round-1 leader proposes after round 1 "
+          "(null ROUND-CHANGEs); every round-1 COMMIT of X lost (prepared ROUND-CHANGEs with PREPARE certificates, justified PRE-PREPARE)}, the Byzantine yes-voter (both "
+          "instances) under every index with one cross-instance strategy built only from the messages it received plus its own key: decided / preprepare / roundchange = "
+          "its own DECIDED / PRE-PREPARE / ROUND-CHANGE for Y carrying the genuine COMMIT quorum / ROUND-CHANGE quorum (+PREPARE certificate) / PREPARE quorum of X, cold or "
+          "warm (the same message for X first: the material in its legitimate place, then transplanted); replay = every honest message of X again, unmodified; relabel = "
+          "the honest PRE-PREPARE/PREPAREs/COMMITs of X with the duty rewritten to Y (signatures untouched) and its DECIDED for Y justified by the relabelled COMMITs; "
+          "xvalues = its PRE-PREPARE/PREPARE/COMMIT for Y referring to and carrying a value of X, and all its votes for Y carrying values of X before and after the proposed "
+          "one (also under map rotations 1..3 when sent to all) - each to one victim or to all honest members; plus the same two-duty scripts with four honest members. "
+          "Quick: 54 scripts without adversary (3 pairs x 3 orders x 3 shapes of Y x 2 shapes of X) + 4 indices x first two pairs x 3 orders x 3 instants x 6 strategies "
+          "(transplants warm; X shape = the one that yields the strategy's material) x {victim (byz+1)%4, all} + rotations = 1134 two-duty scripts; thorough: the full product "
+          "(5 x 3 x 3 x 3 x 3 shapes of X x every victim x 10 strategies incl. none x {one, all} + rotations, about 21.7 k). Same oracle, per duty; a decided value that "
+          "nobody proposed for that duty is named in the description only (C03's clause; the C03 check does not use this harness). Counters report how many cross-instance "
+          "messages were sent per category and how many reached a receive buffer (transplants and relabelled copies: none on the unchanged tree)",
     trusted="testing/synctest quiescence; the one-line snapshot splice; state-key completeness (cross-checked by executing every local transition "
             "from two different representative histories)",
     rule="BFS over global states (tuple of local Run states + message pool); transitions are deliveries of enabling message sets, timeouts, inputs; "
-         "distinct = distinct global states",
-    assumptions=STATEX_ASSUME,
+         "distinct = distinct global states; component part: one evaluation per script, distinct classes = (single/two-duty, strategy, instant, number of honest members "
+         "that decided X and Y)",
+    assumptions=STATEX_ASSUME + [
+        "component part: one pinned select order and map rotation 0 per execution (rotations 1..3 only for the attached-values strategy); goroutine interleavings "
+        "inside one virtual instant are whatever the single-P runtime produces (candidates are re-executed three times before they are reported)",
+        "component part, two duties: instants are fixed (X by 2.2 s, action at 2.7 s, late start of Y at 3.0 s); more than two overlapping duties, duty expiry "
+        "during the run and other duty types than attester/aggregator are outside the bound",
+    ],
     budget_s={"quick": 100, "thorough": 1500},
     shards={"quick": 16, "thorough": 16},
     gomaxprocs=1,
